@@ -236,6 +236,39 @@ def main(tier, seed, replay=None):
                         time.sleep(0.02)
                     if pid_alive(pid):
                         ck.fail("exit-close_write-does-not-end-the-proxied-process:" + name, {"control": name, "execmodel": em, "pid": pid})
+                # (D) exit with data in flight: a slow remote consumer acknowledges every item; the initiator sends a burst far larger
+                # than a pipe buffer and exits the gateway at once: the exit request travels BEHIND the data on every transport
+                acks = {}
+                for name, spec in (("direct", "popen//id=e1"), ("via", "popen//id=e2//via=master"), ("socket", "socket//id=e3//installvia=master")):
+                    try:
+                        gw = group.makegateway(spec)
+                    except Exception as e:  # noqa
+                        ck.count("inflight_unavailable_" + name)
+                        continue
+                    got = []
+                    ch = gw.remote_exec("import time\ndef cb(x):\n    time.sleep(0.03)\n    channel.send(len(x))\nsub = channel.gateway.newchannel()\nsub.setcallback(cb)\nchannel.send(sub)\nsub.waitclose()")
+                    ch.setcallback(got.append)
+                    t0 = time.time()
+                    while not got and time.time() - t0 < 10:
+                        time.sleep(0.01)
+                    if not got:
+                        ck.broke("correspondence", "inflight-setup-failed", {"transport": name, "execmodel": em})
+                        continue
+                    sub = got.pop(0)
+                    nitems, size = 8, 256 * 1024
+                    for i in range(nitems):
+                        sub.send(b"x" * size)
+                    gw.exit()
+                    X.with_timeout(lambda: (gw.join(10), gw._io.wait()), 30)
+                    time.sleep(0.3)
+                    acks[name] = list(got)
+                    ck.count("inflight_" + name)
+                    ck.case(("inflight", name, em), nontrivial=True)
+                for name, a in acks.items():
+                    if a != acks.get("direct", a):
+                        ck.fail("exit-overtakes-data-in-flight:" + name, {"transport": name, "execmodel": em, "acks": a, "acks_direct_popen": acks.get("direct")})
+                if acks.get("direct") is not None and acks["direct"] != [256 * 1024] * 8:
+                    ck.fail("exit-overtakes-data-in-flight:direct", {"execmodel": em, "acks": acks["direct"]})
             finally:
                 X.with_timeout(lambda: group.terminate(timeout=3), 30)
     ck.cov["traces_validated_against_impl"] = ck.cov.get("proxy_cases", 0)
